@@ -56,6 +56,13 @@ var c05Templates = []c05Template{
 	{"comma_t2_t1", "select", []string{"t2", "t1"}, "SELECT t2.id, t1.plain FROM t2, t1 WHERE t2.id = %d", nil},
 	{"join_nested", "select", []string{"t2", "t1", "t3"}, "SELECT t2.id FROM t2 JOIN (t1 JOIN t3 ON t1.id = t3.id) ON t2.id = t1.id WHERE t2.id = %d", nil},
 	{"join_group", "select", []string{"t3", "t2", "t1"}, "SELECT t3.id FROM t3 JOIN (t2, t1) ON t3.id = t2.id WHERE t3.id = %d", nil},
+	{"join_chain", "select", []string{"t1", "t2", "t3"}, "SELECT t1.id FROM t1 JOIN t2 ON t1.id = t2.id JOIN t3 ON t2.id = t3.id WHERE t1.id = %d", nil},
+	{"join_chain_left", "select", []string{"t2", "t1", "t3"}, "SELECT t2.id FROM t2 LEFT JOIN t1 ON t1.id = t2.id JOIN t3 ON t2.id = t3.id WHERE t2.id = %d", nil},
+	// value lists: a pattern with a fixed number of elements does not match a longer list
+	{"in_list3", "select", []string{"t2"}, "SELECT note, id FROM t2 WHERE id IN (%d, 7, abs(1))",
+		[]string{"SELECT note, id FROM t2 WHERE id IN (%%%%VALUE%%%%, %%%%VALUE%%%%, abs(1))"}},
+	{"in_list4", "select", []string{"t2"}, "SELECT note, id FROM t2 WHERE id IN (%d, 7, abs(1), 8)", nil},
+	{"in_list5", "select", []string{"t2"}, "SELECT note, id FROM t2 WHERE id IN (%d, 7, abs(1), (SELECT id FROM t2 WHERE id = 8))", nil},
 	// several statements in one simple Query message: not one parsable statement
 	{"multi", "garbage", nil, "SELECT id, note FROM t2 WHERE id = %d; SELECT id, c1 FROM t1 WHERE id = 1", nil},
 	{"garbage", "garbage", nil, "SELEC id FRM t2 WHERE id = %d", nil},
